@@ -12,6 +12,8 @@ wraps are identities and model = source.  Hypotheses used (Go: ByteCount int64, 
   guard fires; the model keeps that guard, the unbounded translation cannot see it).
 * `TimeUntilSend`: `1e9·(mds - budget) < 2^64`, quotient+1 `< 2^63`, `lastSent + delay` inside int64.
 * `BandwidthEstimate`: `srtt ≥ 0`, `cwnd·1e9 < 2^64`, result `< 2^64`.
+* `HybridSlowStart.OnPacketAcked`/`IsEndOfRound`: none.  (`ShouldExitSlowStart` translates as well, but its tie is
+  not proved: the model threads six record updates through nested `let`s; it stays tied by the cong driver only.)
 * `maybeIncreaseCwnd` (Reno: field `reno` assumed true — generated fact `renoEverywhere`): `numAcked + 1 < 2^64`.
   qlog / cubic.OnApplicationLimited calls are skipped by the translator (they write none of the translated fields).
 -/
@@ -214,5 +216,11 @@ theorem cubicSender_maybeIncreaseCwnd_model_is_source (s : Sender) (prior : Nat)
       true_and, and_true, reduceCtorEq, false_iff, ne_eq] <;>
     (try trivial) <;>
     (refine ⟨?_, ?_, ?_⟩ <;> tie_arith)
+
+/-- `HybridSlowStart.OnPacketAcked` with `IsEndOfRound` (the written field `started`) -/
+theorem HybridSlowStart_OnPacketAcked_model_is_source (h : HyStart) (pn : Int) :
+    (h.onPacketAcked pn).started = HybridSlowStart_OnPacketAcked_set_started pn h.endPN h.started := by
+  unfold HyStart.onPacketAcked HybridSlowStart_OnPacketAcked_set_started HybridSlowStart_IsEndOfRound
+  (repeat' split) <;> first | rfl | omega | (simp_all; done) | (simp_all <;> omega)
 
 end Uquic.Props.TransCong
